@@ -275,7 +275,7 @@ func gwID(g *clsim.Gateway, name string) uint16 {
 
 func TestC27(t *testing.T) {
 	vf.Check(t, vf.Prop[c27Case]{
-		ID: "C27", Name: "dispatch-matching", Bubble: true,
+		ID: "C27", Name: "dispatch-matching", Bubble: true, MarkCurrent: true,
 		Rule: "real client against a cooperative scripted gateway; histories of 2-14 operations: Subscribe with filters of 0-3 levels over {a,b,empty,+} with optional trailing '#' (so '#', 'a/#', '+/+', '/', 'a//b', 'a/' occur) or plain names, each with its own recording callback; Unsubscribe; deliveries of topics of 1-4 levels over {a,b,empty} at QoS 0/1 (on receipt) and QoS 2 (PUBLISH, PUBREC, PUBREL; in half of them 1-2 Subscribe/Unsubscribe calls complete between PUBREC and PUBREL, and the subscriptions current at the PUBREL decide) via registered IDs, 2-octet short names and predefined IDs. Every (filter, topic) pair with at most 2 levels is additionally enumerated with a single subscription. Non-trivial = a delivery with >= 2 live subscriptions of which some match and some do not, or a topic with an empty level; distinct by case.",
 		Assumptions: []string{"'$'-topics and invalid filters are not generated; which of several matching callbacks runs is not constrained", "oracle: reference matcher written from MQTT 3.1.1 section 4.7"},
 		Exhaustive: func(tier string, yield func(c27Case)) {
